@@ -3,7 +3,7 @@ C25 helper lemmas, part 3: frame facts, HWM handling (follower, buffered, tick),
 top-level invariant preserved by every operation except restart (part 4).
 -/
 import RqModel.Lemmas.Cdc2
-namespace RqModel.Cdc
+namespace RqModel.CdcPipe
 open RqModel.Fifo
 
 /-! ### what the pipeline steps never touch -/
@@ -211,4 +211,4 @@ theorem tick_good (s : St) (f : Nat) (hb : Base s f) (hc : Cov s f) :
       · right; right
         exact ⟨h.1, by simp only; rw [hhigh]; exact h.2.1, h.2.2⟩
 
-end RqModel.Cdc
+end RqModel.CdcPipe
